@@ -42,6 +42,8 @@ pub struct ServerCfg {
     pub target_name: String,
     /// AV pairs in order, without the terminating EOL
     pub av_pairs: Vec<(u16, Vec<u8>)>,
+    /// value written into the TargetInfo and TargetName MaxLen fields instead of their Len (receivers ignore MaxLen)
+    pub maxlen_override: Option<u16>,
 }
 
 impl ServerCfg {
@@ -57,6 +59,7 @@ impl ServerCfg {
                 (AV_DNS_COMPUTER, utf16le("srv.local")),
                 (AV_TIMESTAMP, vec![0x00, 0x80, 0x3e, 0xd5, 0xde, 0xb1, 0x9d, 0x01]),
             ],
+            maxlen_override: None,
         }
     }
 }
@@ -79,11 +82,11 @@ pub fn challenge_message(cfg: &ServerCfg) -> Vec<u8> {
     let ti = av_bytes(&cfg.av_pairs, true);
     let mut w = W::new();
     w.bytes(b"NTLMSSP\0").u32le(2);
-    w.u16le(tn.len() as u16).u16le(tn.len() as u16).u32le(hdr);
+    w.u16le(tn.len() as u16).u16le(cfg.maxlen_override.unwrap_or(tn.len() as u16)).u32le(hdr);
     w.u32le(cfg.flags);
     w.bytes(&cfg.challenge);
     w.zeros(8);
-    w.u16le(ti.len() as u16).u16le(ti.len() as u16).u32le(hdr + tn.len() as u32);
+    w.u16le(ti.len() as u16).u16le(cfg.maxlen_override.unwrap_or(ti.len() as u16)).u32le(hdr + tn.len() as u32);
     if version {
         w.bytes(&[6, 1, 0xb1, 0x1d, 0, 0, 0, 15]);
     }
